@@ -1,117 +1,138 @@
 // U10 Kani harnesses (appended inside module `vm` of the vmk crate, pc_to_error_location NOT
-// stubbed): the three table lookups of the REAL pc_to_error_location against "the entry
+// stubbed): each of the three table lookups of the REAL pc_to_error_location against "the entry
 // covering instruction pc-1", the order of make_stack_trace, and the iteration order of
 // `Display for VmError` (its `for location in <EXPR>` header is cut from the real impl and
-// replayed without the formatting machinery).
+// replayed without the formatting machinery).  One symbolic table per harness (the other two
+// are the one-entry table): a fully symbolic VmSharedReadonly costs CBMC > 5 min.
 #[cfg(kani)]
 mod u10 {
     use super::hs::*;
     use super::*;
 
-    pub const NMAX: usize = 4;
-
-    /// a symbolic table of 1..=NMAX entries satisfying C32.tables.build.inv: strictly
-    /// increasing starts, first start 0; attribute ids < nids
-    fn any_table(nids: u32) -> Vec<(BytecodeIndex, u32)> {
-        let n: usize = kani::any();
-        kani::assume(1 <= n && n <= NMAX);
-        let mut t: Vec<(BytecodeIndex, u32)> = Vec::new();
-        let mut prev: u32 = 0;
-        let mut i = 0;
-        while i < NMAX {
-            if i < n {
-                let s: u32 = kani::any();
-                let v: u32 = kani::any();
-                kani::assume(v < nids);
-                if i == 0 {
-                    kani::assume(s == 0);
-                } else {
-                    kani::assume(s > prev);
-                }
-                prev = s;
-                t.push((s, v));
-            }
-            i += 1;
-        }
-        t
+    pub struct Tab { pub n: usize, pub s: [u32; 4], pub v: [u32; 4] }
+    /// symbolic table of 1..=4 entries satisfying C32.tables.build.inv
+    pub fn any_tab(nids: u32) -> Tab {
+        any_tab_n(nids, 4)
     }
-
-    /// specification: the last entry whose start is <= i
-    fn covering(t: &Vec<(BytecodeIndex, u32)>, i: u32) -> u32 {
-        let mut r = t[0].1;
-        let mut k = 0;
-        while k < t.len() {
-            if t[k].0 <= i {
-                r = t[k].1;
-            }
-            k += 1;
-        }
+    pub fn any_tab_n(nids: u32, nmax: usize) -> Tab {
+        let n: usize = kani::any();
+        kani::assume(1 <= n && n <= nmax);
+        let s: [u32; 4] = [0, kani::any(), kani::any(), kani::any()];
+        let v: [u32; 4] = [kani::any(), kani::any(), kani::any(), kani::any()];
+        kani::assume(s[0] < s[1] && s[1] < s[2] && s[2] < s[3]);
+        kani::assume(v[0] < nids && v[1] < nids && v[2] < nids && v[3] < nids);
+        Tab { n, s, v }
+    }
+    pub fn to_vec(t: &Tab) -> Vec<(BytecodeIndex, u32)> {
+        let mut x = vec![(t.s[0], t.v[0]), (t.s[1], t.v[1]), (t.s[2], t.v[2]), (t.s[3], t.v[3])];
+        x.truncate(t.n);
+        x
+    }
+    /// specification: attribute of the last entry whose start is <= i
+    pub fn covering(t: &Tab, i: u32) -> u32 {
+        let mut r = t.v[0];
+        if t.n > 1 && t.s[1] <= i { r = t.v[1]; }
+        if t.n > 2 && t.s[2] <= i { r = t.v[2]; }
+        if t.n > 3 && t.s[3] <= i { r = t.v[3]; }
         r
     }
-
-    fn mk(files: Vec<(BytecodeIndex, u32)>, lines: Vec<(BytecodeIndex, u32)>, funcs: Vec<(BytecodeIndex, u32)>) -> VmGreenThread {
+    fn mk(files: Vec<(BytecodeIndex, u32)>, lines: Vec<(BytecodeIndex, u32)>, funcs: Vec<(BytecodeIndex, u32)>, nstr: usize) -> VmGreenThread {
+        let mut fa = vec![String::new()];
+        let mut ga = vec![String::new()];
+        if nstr > 1 { fa.push(String::from("a")); ga.push(String::from("f")); }
+        if nstr > 2 { fa.push(String::from("aa")); ga.push(String::from("ff")); }
         let shared = Arc::new(VmSharedReadonly {
-            program: vec![],
-            int_constants: vec![],
-            float_constants: vec![],
-            static_strings: vec![],
-            filename_table: files,
-            lineno_table: lines,
-            function_name_table: funcs,
-            // arena entry k is a string of length k: the returned String identifies the id
-            filename_arena: vec![String::new(), String::from("a"), String::from("aa")],
-            function_name_arena: vec![String::new(), String::from("f"), String::from("ff")],
-            heap_size: 0,
+            program: vec![], int_constants: vec![], float_constants: vec![], static_strings: vec![],
+            filename_table: files, lineno_table: lines, function_name_table: funcs,
+            filename_arena: fa, function_name_arena: ga, heap_size: 0,
         });
         mk_thread(shared)
     }
 
-    /// C32.tables.lookup.post: the VM has already incremented pc when an error is raised, and a
-    /// call frame holds the return address, so the location reported for pc must be that of
+    /// C32.tables.lookup.post (line): the VM has already incremented pc when an error is raised,
+    /// and a call frame holds the return address, so the location reported for pc must be that of
     /// instruction pc-1, for every pc >= 1.
     #[kani::proof]
     #[kani::unwind(6)]
-    fn lookup_post() {
-        let files = any_table(3);
-        let lines = any_table(u32::MAX);
-        let funcs = any_table(3);
-        let (f2, l2, g2) = (files.clone(), lines.clone(), funcs.clone());
-        let t = mk(files, lines, funcs);
+    fn lookup_post_line() {
+        let tab = any_tab(u32::MAX);
+        let t = mk(vec![(0, 0)], to_vec(&tab), vec![(0, 0)], 1);
         let pc: u32 = kani::any();
         kani::assume(pc >= 1);
         let loc = t.pc_to_error_location(ProgramCounter(pc));
-        assert!(loc.lineno == covering(&l2, pc - 1), "line of instruction pc-1");
-        assert!(loc.filename.len() == covering(&f2, pc - 1) as usize, "file of instruction pc-1");
-        assert!(loc.function_name.len() == covering(&g2, pc - 1) as usize, "function of instruction pc-1");
-        kani::cover!(l2.len() == NMAX && pc == l2[2].0, "pc exactly at the start of an entry (Ok branch) reachable");
-        kani::cover!(l2.len() == NMAX && pc > l2[3].0, "pc past the last entry (Err(len) branch) reachable");
-        kani::cover!(l2.len() >= 2 && pc < l2[1].0, "pc inside the first range reachable");
+        assert!(loc.lineno == covering(&tab, pc - 1), "line of instruction pc-1");
+        assert!(loc.filename.len() == 0 && loc.function_name.len() == 0, "other lookups unaffected");
+        kani::cover!(tab.n == 4 && pc == tab.s[2], "pc exactly at the start of an entry (Ok branch) reachable");
+        kani::cover!(tab.n == 4 && pc > tab.s[3], "pc past the last entry (Err(len) branch) reachable");
+        kani::cover!(tab.n >= 2 && pc < tab.s[1], "pc inside the first range reachable");
+        // dropping the thread (impl Drop for VmGreenThread) is not part of the obligation and doubles CBMC's work
+        core::mem::forget(loc);
+        core::mem::forget(t);
+    }
+
+    /// C32.tables.lookup.post (file): arena entry k is a string of length k, so the length of the
+    /// returned String identifies the id that was looked up
+    #[kani::proof]
+    #[kani::unwind(6)]
+    fn lookup_post_file() {
+        let tab = any_tab(3);
+        let t = mk(to_vec(&tab), vec![(0, 7)], vec![(0, 0)], 3);
+        let pc: u32 = kani::any();
+        kani::assume(pc >= 1);
+        let loc = t.pc_to_error_location(ProgramCounter(pc));
+        assert!(loc.filename.len() == covering(&tab, pc - 1) as usize, "file of instruction pc-1");
+        assert!(loc.lineno == 7 && loc.function_name.len() == 0, "other lookups unaffected");
+        kani::cover!(tab.n == 4 && pc == tab.s[2], "pc exactly at the start of an entry (Ok branch) reachable");
+        kani::cover!(tab.n == 4 && pc > tab.s[3], "pc past the last entry (Err(len) branch) reachable");
+        kani::cover!(tab.n >= 2 && pc < tab.s[1], "pc inside the first range reachable");
+        // dropping the thread (impl Drop for VmGreenThread) is not part of the obligation and doubles CBMC's work
+        core::mem::forget(loc);
+        core::mem::forget(t);
+    }
+
+    /// C32.tables.lookup.post (function)
+    #[kani::proof]
+    #[kani::unwind(6)]
+    fn lookup_post_func() {
+        let tab = any_tab(3);
+        let t = mk(vec![(0, 0)], vec![(0, 7)], to_vec(&tab), 3);
+        let pc: u32 = kani::any();
+        kani::assume(pc >= 1);
+        let loc = t.pc_to_error_location(ProgramCounter(pc));
+        assert!(loc.function_name.len() == covering(&tab, pc - 1) as usize, "function of instruction pc-1");
+        assert!(loc.lineno == 7 && loc.filename.len() == 0, "other lookups unaffected");
+        kani::cover!(tab.n == 4 && pc == tab.s[2], "pc exactly at the start of an entry (Ok branch) reachable");
+        kani::cover!(tab.n == 4 && pc > tab.s[3], "pc past the last entry (Err(len) branch) reachable");
+        kani::cover!(tab.n >= 2 && pc < tab.s[1], "pc inside the first range reachable");
+        // dropping the thread (impl Drop for VmGreenThread) is not part of the obligation and doubles CBMC's work
+        core::mem::forget(loc);
+        core::mem::forget(t);
     }
 
     /// pc == 0 (no instruction has executed): the lookup must not fault; it reports entry 0
     #[kani::proof]
     #[kani::unwind(6)]
     fn lookup_pc0_total() {
-        let lines = any_table(u32::MAX);
-        let l2 = lines.clone();
-        let t = mk(vec![(0, 0)], lines, vec![(0, 0)]);
+        let tab = any_tab(u32::MAX);
+        let t = mk(vec![(0, 0)], to_vec(&tab), vec![(0, 0)], 1);
         let loc = t.pc_to_error_location(ProgramCounter(0));
-        assert!(loc.lineno == l2[0].1, "pc == 0 reports the first entry");
+        assert!(loc.lineno == tab.v[0], "pc == 0 reports the first entry");
         kani::cover!(true, "reachable");
+        core::mem::forget(loc);
+        core::mem::forget(t);
     }
 
     /// C32.trace.order (1): make_stack_trace lists the frames outermost first (call_stack order),
-    /// each at the line of its call instruction (frame.pc - 1)
+    /// one entry per active call, each the lookup of that frame's return address.  Runs on the crate
+    /// variant in which pc_to_error_location is the stub `lineno = pc` (replacement K4b), so that an
+    /// entry identifies the frame it came from; the lookups themselves are the harnesses above.
     #[kani::proof]
     #[kani::unwind(6)]
     fn trace_outermost_first() {
-        let lines = any_table(u32::MAX);
-        let l2 = lines.clone();
-        let mut t = mk(vec![(0, 0)], lines, vec![(0, 0)]);
+        let mut t = mk(vec![(0, 0)], vec![(0, 0)], vec![(0, 0)], 1);
         let nf: usize = kani::any();
         kani::assume(nf <= 3);
         let (p0, p1, p2): (u32, u32, u32) = (kani::any(), kani::any(), kani::any());
-        kani::assume(p0 >= 1 && p1 >= 1 && p2 >= 1);
         if nf >= 1 {
             t.call_stack.push(CallFrame { pc: ProgramCounter(p0), stack_base: 0, nargs: 0 });
         }
@@ -124,15 +145,17 @@ mod u10 {
         let tr = t.make_stack_trace();
         assert!(tr.len() == nf, "one entry per active call");
         if nf >= 1 {
-            assert!(tr[0].lineno == covering(&l2, p0 - 1), "entry 0 = outermost call site");
+            assert!(tr[0].lineno == p0, "entry 0 = lookup of the outermost frame's return address");
         }
         if nf >= 2 {
-            assert!(tr[1].lineno == covering(&l2, p1 - 1), "entry 1 = next call site");
+            assert!(tr[1].lineno == p1, "entry 1 = next frame");
         }
         if nf >= 3 {
-            assert!(tr[2].lineno == covering(&l2, p2 - 1), "entry 2 = innermost call site");
+            assert!(tr[2].lineno == p2, "entry 2 = innermost frame");
         }
         kani::cover!(nf == 3, "three frames reachable");
+        core::mem::forget(tr);
+        core::mem::forget(t);
     }
 
     fn loc(n: u32) -> VmErrorLocation {
@@ -140,8 +163,8 @@ mod u10 {
     }
 
     /// C32.trace.order (2): Display prints the failure location first, then the call sites
-    /// innermost first.  DISPLAY_ORDER_EXPR is the iterator expression of the `for location in ..`
-    /// loop of `impl Display for VmError`, cut from the real text.
+    /// innermost first.  display_order() replays the iterator expression of the
+    /// `for location in ..` loop of `impl Display for VmError`, cut from the real text.
     #[kani::proof]
     #[kani::unwind(6)]
     fn display_innermost_first() {
